@@ -17,7 +17,7 @@ molecules(max_qubits=10, max_kept=6, refs=("rhf","rohf","uhf"), families=None, b
         frozen-occupied + active orbitals number <= max_kept per spin (cost bound of the CI oracle, 2**(2*max_kept)).
         With invalid=True about one case in ten is allowed to violate Tangelo's documented frozen-orbital contract
         (no active electrons / all active orbitals full / half-filled orbital frozen in ROHF).
-build_molecule(case)        -> tangelo SecondQuantizedMolecule; raises vlib.runner.Skip for the documented rejections
+build_molecule(case, solver=None) -> tangelo SecondQuantizedMolecule (optional shared IntegralSolver instance); raises vlib.runner.Skip for the documented rejections
                                (the three above and "Hartree-Fock calculation did not converge").
 pyscf_mole(case)            -> pyscf.gto.Mole built directly from the case (independent of Tangelo's converter).
 mo_pair(sqmol)              -> (mo_alpha, mo_beta) coefficient arrays (same array twice for RHF/ROHF).
@@ -206,8 +206,9 @@ REJECTIONS = ("There are no active electrons.", "All active orbitals are fully o
               "Hartree-Fock calculation did not converge")
 
 
-def build_molecule(case):
-    """case -> SecondQuantizedMolecule (runs the SCF). Documented rejections become Skip(reason)."""
+def build_molecule(case, solver=None):
+    """case -> SecondQuantizedMolecule (runs the SCF). Documented rejections become Skip(reason).
+    solver: optional IntegralSolver instance handed to the molecule (default: Tangelo creates a fresh one)."""
     from tangelo import SecondQuantizedMolecule
     from vlib.runner import Skip
     xyz = [(e, tuple(float(x) for x in p)) for e, p in case["atoms"]]
@@ -215,8 +216,9 @@ def build_molecule(case):
     if isinstance(fr, list):
         fr = [list(x) for x in fr] if (fr and isinstance(fr[0], list)) else list(fr)
     try:
+        kw = {} if solver is None else {"solver": solver}
         return SecondQuantizedMolecule(xyz, case["q"], case["spin"], basis=case["basis"], frozen_orbitals=fr,
-                                       uhf=bool(case["uhf"]))
+                                       uhf=bool(case["uhf"]), **kw)
     except (ValueError, NotImplementedError) as e:
         if str(e) in REJECTIONS:
             raise Skip(str(e).rstrip(".")) from None
